@@ -566,6 +566,11 @@ class InProtocolBase(ProtocolMixin):
 
     def duration_from_unicode(self, cls, string):
         match = _duration_re.match(string)
+        if match is not None and (match.end() != len(string.rstrip())
+                          or not any(c.isdigit() for c in match.group(0))):
+            # trailing garbage, or no component at all like 'P' and 'PT'
+            match = None
+
         if match is None:
             raise ValidationError(string,
                 "Time data '%%s' does not match regex '%s'" %
